@@ -214,11 +214,15 @@ impl FileManager {
         handle: FileHandle,
         fields: Vec<Field>,
     ) -> Result<(), RuntimeError> {
-        // TODO if sum(field width) > rec_len, throw error
         let file_info = self.try_get_file_info(&handle)?;
         if file_info.random.is_none() {
             // FIELD is only for files opened FOR RANDOM
             return Err(RuntimeError::BadFileMode);
+        }
+        // the fields of one list must fit in the record
+        let total_width: usize = fields.iter().map(|field| field.width).sum();
+        if total_width > file_info.rec_len {
+            return Err(RuntimeError::FieldOverflow);
         }
         file_info.add_field_list(fields);
         Ok(())
